@@ -23,6 +23,20 @@ def sh(cmd, cwd=None, env=ENV):
     return p.returncode, p.stdout
 
 
+def record_sites(out, who):
+    """Accumulates the rule source positions a check reported (line "sites: {...}") in rulelive/SITES.json."""
+    path = os.path.join(VERIF, "rulelive", "SITES.json")
+    acc = json.load(open(path)) if os.path.exists(path) else {}
+    for l in out.split("\n"):
+        if l.startswith("sites: "):
+            for k, v in json.loads(l[len("sites: "):]).items():
+                e = acc.setdefault(k, dict(count=0, by=[]))
+                e["count"] += v
+                if who not in e["by"] and len(e["by"]) < 8:
+                    e["by"].append(who)
+    json.dump(acc, open(path, "w"), indent=1, sort_keys=True)
+
+
 def main():
     muts = json.load(open(os.path.join(VERIF, "rulelive", "mutants.json")))
     want = sys.argv[1:]
@@ -56,6 +70,7 @@ def main():
                 continue
             rc, out = sh(["./check", m["check"], "quick"], cwd=VERIF, env=dict(ENV, VERIF_QUICK_S=os.environ.get("VERIF_QUICK_S", "8")))
             sigs = [l[len("violation: "):].strip() for l in out.split("\n") if l.startswith("violation:")]
+            record_sites(out, m["id"])
             fired = sorted({r for r in m["expect"] for s in sigs if ("/" + r + "/") in (s + "/") })
             results[m["id"]] = dict(check=m["check"], expect=m["expect"], exit=rc, fired=fired, signatures=sigs[:60], note=m.get("note", ""))
             status = "LIVE" if fired else ("other rules only" if sigs else "NOTHING FIRED")
